@@ -292,7 +292,9 @@ fn report_roots(
 }
 
 impl Scanning<SimVM> for SimScanning {
-    const UNIQUE_OBJECT_ENQUEUING: bool = cfg!(not(feature = "header_meta"));
+    // (variant C: side mark bits *and* no unique enqueuing, the combination in which the
+    // mark-sweep space marks with a check-then-set that is only atomic per byte)
+    const UNIQUE_OBJECT_ENQUEUING: bool = cfg!(not(any(feature = "header_meta", feature = "var_c")));
 
     fn scan_object<SV: SlotVisitor<Address>>(
         _tls: VMWorkerThread,
